@@ -137,6 +137,12 @@ let handle (x : sx) : ostring =
   | L [A "onreset"; pk; L fs; h; n; w] ->
       let pk = pk_of_sx pk and fs = List.map formula_of_sx fs and h = nat_of_sx h and n = nat_of_sx n and w = trace_of_sx w in
       Printf.sprintf "ON %s" (show_vals (run_on_reset pk fs w h n))
+  | L [A "pastpk"; pk; f; n; w] ->
+      let pk = pk_of_sx pk and f = formula_of_sx f and n = nat_of_sx n and w = trace_of_sx w in
+      let spec = run_past_spec_pk pk f w n in
+      Printf.sprintf "SPEC %s | GUARD %s | EXACT %s | HOR %d"
+        (OS.concat " " (List.map (function None -> "_" | Some v -> string_of_extz v) spec))
+        (show_bool (run_past_guard f)) (show_bool (run_exact pk f w n)) (int_of_nat (run_hor f))
   | L [A "past"; kind; f; n; w] ->
       let stl = (atom kind = "stl") and f = formula_of_sx f and n = nat_of_sx n and w = trace_of_sx w in
       let pf = run_pastify stl f in
